@@ -232,6 +232,13 @@ def hook_reinforce(model, mon, kind, B_hint=None):
                     if abs(float(ex[i]) - float(ref.reshape(-1)[i])) > 1e-4 * max(1.0, abs(float(ref.reshape(-1)[i]))):
                         mon.v("rollout_value", f"epoch {epoch}: rollout-baseline value {float(ex[i])} used for an instance != greedy reward {float(ref.reshape(-1)[i])} of the policy the baseline was built from")
                         return out
+            if extra is not None:
+                # one baseline value per instance, paired by position: the reference works on the flat per-instance vector (a
+                # [B, 1]-shaped value next to [B] rewards would broadcast to B x B "advantages" in the library's expression)
+                if extra.numel() != Rd.numel():
+                    mon.v("rollout_value_shape", f"the batch carries {extra.numel()} rollout-baseline values for {Rd.numel()} rollouts")
+                    return out
+                extra = extra.detach().reshape(Rd.shape)
             if alpha == 0 or extra is None:
                 pass
             elif alpha < 1:
@@ -406,7 +413,13 @@ def hook_ppo(model, mon):
             if old.requires_grad or R.requires_grad:
                 mon.v("old_requires_grad", "old log-probs / rewards carry a gradient")
             else:
-                ratio = torch.exp(ll.sum(-1) - old).view(-1, 1)
+                # strict per-rollout pairing: every quantity as a column of one value per rollout (no broadcasting between a [B] and a [B, 1])
+                nb = R.numel()
+                if old.numel() != nb or v.numel() != nb or ll.shape[0] != nb:
+                    mon.v("ppo_shapes", f"per-rollout quantities disagree in size: rewards {nb}, old log-probs {old.numel()}, values {v.numel()}, log-likelihood rows {ll.shape[0]}")
+                    return orig(loss, *a, **kw)
+                v = v.reshape(-1, 1)
+                ratio = torch.exp(ll.sum(-1).reshape(-1) - old.reshape(-1)).view(-1, 1)
                 adv = R - v.detach()
                 if cfg["normalize_adv"]:
                     adv = (adv - adv.mean()) / (adv.std() + 1e-8)
